@@ -148,8 +148,9 @@ def regenerate_hintsgen() -> tuple[bool, str]:
     return True, ""
 
 
-def coq_build(jobs: int = 8) -> tuple[bool, str]:
-    """make the whole development (incremental, full .vo); serialised by a file lock."""
+def coq_build(jobs: int = 8, prop: str | None = None) -> tuple[bool, str]:
+    """make the development (incremental, full .vo), or only the theorem file of one property with its
+    dependency closure; serialised by a file lock."""
     with Lock():
         head = (COQ / "_CoqProject.head").read_text()
         files = sorted(str(p.relative_to(COQ)) for p in (COQ / "theories").rglob("*.v"))
@@ -161,7 +162,8 @@ def coq_build(jobs: int = 8) -> tuple[bool, str]:
             rc, log = sh(["coq_makefile", "-f", "_CoqProject", "-o", "Makefile"], cwd=COQ)
             if rc != 0:
                 return False, log
-        rc, log = sh(["timeout", "1500", "make", "-k", f"-j{jobs}"], cwd=COQ, timeout=1600)
+        target = [f"theories/Props/{prop}.vo"] if prop else []
+        rc, log = sh(["timeout", "1500", "make", "-k", f"-j{jobs}", *target], cwd=COQ, timeout=1600)
         return rc == 0, log
 
 
